@@ -1,21 +1,42 @@
 #!/usr/bin/env python3
-"""Print the markdown table of seeded changes from seeded/*/meta.json."""
+"""Write seeded/SUMMARY.md (full table) and print the compact table for DESIGN.md from seeded/*/meta.json."""
 import glob, json, os
 VERIF = os.path.dirname(os.path.dirname(os.path.abspath(__file__)))
-print('| seed | breaks | change | needs | caught by (tier: clause) |')
-print('|---|---|---|---|---|')
+rows = []
 for d in sorted(glob.glob(os.path.join(VERIF, 'seeded', '*'))):
+    if not os.path.isdir(d):
+        continue
     m = json.load(open(os.path.join(d, 'meta.json')))
-    caught = []
-    for k, v in m.get('checks', {}).items():
-        if v['exit'] == 1:
+    name = os.path.basename(d)
+    res = m.get('recheck')
+    if not res:
+        res = []
+        for k, v in m.get('checks', {}).items():
+            if v.get('exit') is None:
+                continue
             cl = [l for l in v['lines'] if l.startswith('counterexample')]
-            clause = cl[0].split('clause ')[1].split(')')[0] if cl else '?'
-            caught.append('%s: `%s`' % (k, clause))
-        elif v['exit'] == 0:
-            caught.append('%s: missed' % k)
-        else:
-            caught.append('%s: exit %s' % (k, v['exit']))
-    note = (' — ' + m['note']) if m.get('note') else ''
-    print('| %s | %s | %s | %s | %s%s |' % (os.path.basename(d), m.get('property'), m.get('summary', '').replace('|', '/')[:160],
-                                         m.get('needs', '').replace('|', '/')[:170], '; '.join(caught), note))
+            clause = cl[0].split('clause ')[1].split(')')[0] if cl else ''
+            if k.endswith('/quick') or v['exit'] == 1:
+                res.append('%s exit %d %s' % (k.split('/')[0] + ('' if k.endswith('/quick') else '(thorough)'), v['exit'], clause))
+    caught = [r for r in res if ' exit 1' in r]
+    verdict = '; '.join('%s `%s`' % (r.split()[0], r.split(' exit 1 ')[1].strip() or '?') for r in caught)
+    if not caught:
+        verdict = 'not caught (' + '; '.join(r.split(' exit ')[0] + ' exit ' + r.split(' exit ')[1].split()[0] for r in res) + ')'
+    rows.append((name, m.get('property'), m.get('summary', '').replace('|', '/').replace('\n', ' '),
+                 m.get('needs', '').replace('|', '/').replace('\n', ' '), verdict, m.get('note', '')))
+with open(os.path.join(VERIF, 'seeded', 'SUMMARY.md'), 'w') as f:
+    f.write('# Seeded changes (all pass the 111 tests; each confirmed with its demo)\n\n')
+    f.write('| seed | breaks | change | needs | quick tier verdict | note |\n|---|---|---|---|---|---|\n')
+    for r in rows:
+        f.write('| %s | %s | %s | %s | %s | %s |\n' % r)
+n = len(rows)
+own = sum(1 for r in rows if (r[1] + ' `') in r[4])
+other = sum(1 for r in rows if 'not caught' not in r[4] and (r[1] + ' `') not in r[4])
+print('%d seeded changes kept; %d caught by the quick tier of the property they were written against, %d only by another '
+      "property's quick check, %d not caught (all listed with the reason)." % (n, own, other, n - own - other))
+print()
+print('| seed | written against | caught by: check `clause` |')
+print('|---|---|---|')
+for r in rows:
+    extra = (' — ' + r[5]) if ('not caught' in r[4] and r[5]) else ''
+    print('| %s | %s | %s%s |' % (r[0], r[1], r[4], extra))
